@@ -82,6 +82,9 @@ type PathCtx struct {
 	fcount   map[*ssa.Function]int64
 	seedVals map[string]uint64
 	originTag string
+	phase    int // 0 none, 1 = A, 2 = B (verifrt.Parallel)
+	fpR, fpW [3]map[*Object]string
+	inOnce   int
 	known    map[*Term]uint64
 }
 
